@@ -375,6 +375,9 @@ func genScenario(r *kit.Rand) sCase {
 			bp := sPod{Name: fmt.Sprintf("bound-%d", i), NS: kit.Pick(r, []string{"ns1", "ns1", "ns1", "ns2"}), Labels: map[string]string{"app": app}, CPU: "100m",
 				Node: kit.Pick(r, sc.Nodes).Name, Tolerates: true}
 			if r.Chance(1, 3) {
+				bp.Labels["rev"] = kit.Pick(r, []string{"1", "2"})
+			}
+			if r.Chance(1, 3) {
 				t := sTerm{Key: kit.Pick(r, []string{zoneKey, hostKey}), Sel: pickSel(r, kit.Pick(r, apps))}
 				pickNs(r, &t)
 				bp.Anti = []sTerm{t}
@@ -438,6 +441,9 @@ func genScenario(r *kit.Rand) sCase {
 				}
 				if r.Chance(1, 4) {
 					s.MLK = []string{"rev"}
+					if _, ok := tmpl.Labels["rev"]; !ok && r.Chance(3, 4) {
+						tmpl.Labels["rev"] = kit.Pick(r, []string{"1", "2"})
+					}
 				}
 				if r.Chance(1, 3) {
 					s.TaintHonor = ptr(r.Bool())
@@ -469,7 +475,10 @@ func genScenario(r *kit.Rand) sCase {
 			p.Name = fmt.Sprintf("%s-%d", app, i)
 			p.Labels = lo.Assign(tmpl.Labels)
 			// a second replica set of the same deployment shape pinned elsewhere (same constraints, other node selector)
-			if i >= 2 && r.Chance(1, 4) && tmpl.NodeSel == nil && len(tmpl.ZoneIn) == 0 && (extraShapes || len(tmpl.Spread) == 0) {
+			// with a spread constraint only when the template also carries a DoNotSchedule zone spread: then every counted
+			// pod's node has a collapsed zone when it is committed, so eligibility w.r.t. a zone restriction never changes later
+			zoneDNS := lo.SomeBy(tmpl.Spread, func(s sSpread) bool { return s.Key == zoneKey && !s.Anyway })
+			if i >= 2 && r.Chance(1, 4) && tmpl.NodeSel == nil && len(tmpl.ZoneIn) == 0 && (len(tmpl.Spread) == 0 || (extraShapes && zoneDNS)) {
 				p.ZoneIn = subset(r, allZones, 1, 2)
 			}
 			sc.Batch = append(sc.Batch, p)
@@ -547,10 +556,10 @@ func universe(sc sCase) map[string]map[string][][]string {
 
 var debugDump bool
 
-// extraShapes (env C02_EXTRA=1) re-enables three input shapes that hit further defects reported for this property
-// but not (yet) listed as known findings: label-selector values with duplicates, carriers of one spread constraint
-// that differ in their own zone restriction, and existing nodes without a zone label. Each is tagged with its kf_key.
-var extraShapes = os.Getenv("C02_EXTRA") == "1"
+// extraShapes: three input shapes that hit defects listed as known findings (label-selector values with
+// duplicates, carriers of one spread constraint that differ in their own zone restriction, existing nodes without a
+// zone label). They are generated by default and tagged with their kf_key; C02_EXTRA=0 switches them off.
+var extraShapes = os.Getenv("C02_EXTRA") != "0"
 
 func runSolve(c *kit.Ctx, r *kit.Rand, idx int) {
 	sc := genScenario(r)
@@ -944,6 +953,25 @@ func corpus() []sCase {
 		{Kind: "solve", Workers: 1, Pools: []sPool{{Name: "pool-a", Weight: 10}}, Batch: []sPod{
 			{Name: "c-0", NS: "ns2", Labels: app("c"), CPU: "2500m", Aff: zoneAff},
 			{Name: "c-1", NS: "ns2", Labels: app("c"), CPU: "2500m", Aff: zoneAff}}},
+		// node inclusion (nodeAffinityPolicy Honor): two bound pods on a node the carriers cannot use (team=y) must not
+		// count for them, so the four carriers have to use z3 as well
+		{Kind: "solve", Workers: 1, Pools: []sPool{{Name: "pool-a", Team: "label", Weight: 10}},
+			Nodes: []sNode{{Name: "node-0", Labels: map[string]string{hostKey: "node-0", ctKey: "on-demand", zoneKey: "z3", teamKey: "y"}}},
+			Bound: []sPod{{Name: "bound-0", NS: "ns1", Labels: app("a"), CPU: "100m", Node: "node-0", Tolerates: true},
+				{Name: "bound-1", NS: "ns1", Labels: app("a"), CPU: "100m", Node: "node-0", Tolerates: true}},
+			Batch: lo.Map([]string{"a-0", "a-1", "a-2", "a-3"}, func(n string, _ int) sPod {
+				return sPod{Name: n, NS: "ns1", Labels: app("a"), CPU: "1700m", NodeSel: map[string]string{teamKey: "x"},
+					Spread: []sSpread{{Key: zoneKey, MaxSkew: 1, Sel: selfSel("a")}}}
+			})},
+		// matchLabelKeys: two bound pods of revision 1 in z1 must not count for the revision-2 carriers
+		{Kind: "solve", Workers: 1, Pools: []sPool{{Name: "pool-a", Weight: 10}},
+			Nodes: []sNode{{Name: "node-0", Labels: map[string]string{hostKey: "node-0", ctKey: "on-demand", zoneKey: "z1"}}},
+			Bound: []sPod{{Name: "bound-0", NS: "ns1", Labels: map[string]string{"app": "a", "rev": "1"}, CPU: "100m", Node: "node-0", Tolerates: true},
+				{Name: "bound-1", NS: "ns1", Labels: map[string]string{"app": "a", "rev": "1"}, CPU: "100m", Node: "node-0", Tolerates: true}},
+			Batch: lo.Map([]string{"a-0", "a-1", "a-2"}, func(n string, _ int) sPod {
+				return sPod{Name: n, NS: "ns1", Labels: map[string]string{"app": "a", "rev": "2"}, CPU: "1700m",
+					Spread: []sSpread{{Key: zoneKey, MaxSkew: 1, Sel: selfSel("a"), MLK: []string{"rev"}}}}
+			})},
 		{Kind: "solve", Workers: 1, Pools: []sPool{{Name: "pool-a", Weight: 10}},
 			Nodes: []sNode{{Name: "node-0", Labels: map[string]string{hostKey: "node-0", ctKey: "on-demand", zoneKey: "z1"}}},
 			Bound: []sPod{{Name: "bound-0", NS: "ns1", Labels: app("a"), CPU: "100m", Node: "node-0", Tolerates: true}},
